@@ -308,7 +308,15 @@ func (x *Exec) model(st *State, fr *Frame, dst ssa.Value, callee *ssa.Function, 
 		x.nilCheck(st, parent, "context-parent", pos)
 		c := st.newRef("ctx")
 		canc := st.ghostArr("cancelled", SBool)
-		st.setGhostArr("cancelled", Store(canc, c, Select(canc, parent.Term)))
+		inherited := Select(canc, parent.Term)
+		if callee.Name() != "WithCancel" {
+			// a deadline may pass at any moment: the child is taken to be cancelled or not from the start, unknown
+			// which (one unconstrained boolean per context; coarser than "becomes cancelled at some point", and every
+			// program point sees both cases)
+			x.note("ASSUMED model of context." + callee.Name() + ": whether the deadline has passed is one unconstrained boolean per context")
+			inherited = Or(inherited, Fresh("deadline$fired", SBool))
+		}
+		st.setGhostArr("cancelled", Store(canc, c, inherited))
 		k := BoundVar("k", SInt)
 		st.Assume(Forall([]*Term{k}, Eq(UF("spec$message.ctxval", SInt, c, k), UF("spec$message.ctxval", SInt, parent.Term, k))))
 		st.Assume(Eq(UF("spec$stdlib.ctxparent", SInt, c), parent.Term))
